@@ -20,6 +20,14 @@ Definition raw_seq (raw : bytes) : option N :=
   | None => None
   end.
 
+(* the same with the search pattern as a parameter: Session::process before /repo 57dfe06 searched for "34="
+   (Sess.Session.pat_34_orig) anywhere in the bytes, since then for SOH "34=" (pat_34) *)
+Definition raw_seq_with (pat raw : bytes) : option N :=
+  match find_after pat raw with
+  | Some rest => fast_atoi_u rest SOH 0
+  | None => None
+  end.
+
 (* the MsgSeqNum field of the decoded message (Field<int>: the same digit loop over the value) *)
 Definition field_seq (m : msg) : N := int_field (get_field T_MsgSeqNum (m_hdr m)).
 
@@ -42,6 +50,22 @@ Section Run19.
 Variable sc : schema.
 Variable decode : bytes -> decode_result.
 Variable fl_process : bytes.
+
+(* Session::process with the search pattern as a parameter (process_with pat_34 = Sess.Session.process);
+   process_with pat_34_orig is the code before the repair of F24 *)
+Definition process_with (pat : bytes) (now : Z) (raw : bytes) (s : sess) : bool * sess * list event :=
+  match find_after pat raw with
+  | None => process_catch sc now 0 None (throw (fmt2 txt_invmsg raw txt_at fl_process) false s)
+  | Some rest =>
+    match fast_atoi_u rest SOH 0 with
+    | None => (false, s, [ENote [85;78;68;69;70]])
+    | Some seqnum =>
+      match decode raw with
+      | DecExc text force => process_catch sc now seqnum None (throw text force s)
+      | DecOk m => process_catch sc now seqnum (Some (m_type m)) (process_body sc decode now seqnum m s)
+      end
+    end
+  end.
 
 (* Sess.Wire.run_op with the inbound path instantiated by (decode, fl_process) *)
 Definition run_op19 (w : world) (o : op) : world * list event :=
